@@ -227,6 +227,7 @@ func (c *FnCtx) assumeAllocatedOrFresh(st *State, v Val) {
 	}
 	na := c.fresh("alloc", "(Array Int Bool)")
 	st.assume(fmt.Sprintf("(forall ((r Int)) (=> (select %s r) (select %s r)))", st.alloc, na))
+	st.assume(not(sel(na, "0")))
 	st.alloc = na
 	walkLeaves(v, "", func(path string, leaf Val) {
 		if leaf.K == KRef || strings.HasSuffix(path, "#base") {
@@ -598,6 +599,12 @@ func (c *FnCtx) builtin(frame *Frame, st *State, in ssa.Instruction, b *ssa.Buil
 		case KRef:
 			if _, ok := a.T.Underlying().(*types.Map); ok {
 				c.mapFacts(st, mapKeyOf(a.T), a.S, "")
+				// cardinality axiom instance: an empty map has no keys
+				{
+					d := c.heapGet(st.heap, arrName("D", mapKeyOf(a.T), "", "Bool"))
+					l := c.heapGet(st.heap, arrName("L", "", "", "Int"))
+					st.assume(fmt.Sprintf("(=> (= (select %s %s) 0) (forall ((k Int)) (not (select (select %s %s) k))))", l, a.S, d, a.S))
+				}
 				k(st, scalar(it, sel(c.heapGet(st.heap, arrName("L", "", "", "Int")), a.S)))
 				return
 			}
